@@ -357,8 +357,14 @@ func (e *Env) ident(name string) TV {
 	if strings.HasPrefix(name, "ghost_") {
 		if e.st != nil {
 			if g, ok := e.st.ghost[name[6:]]; ok {
-				return TV{V: g}
+				return TV{V: g, Signed: true}
 			}
+		}
+		switch name[6:] {
+		case "rspos":
+			return TV{V: I64(-1), Signed: true}
+		case "rsb":
+			return TV{V: BVI(8, 0)}
 		}
 		return TV{V: NilErr}
 	}
